@@ -31,8 +31,8 @@ FN_PRES = ("fun c : (glyphset * glyphset * list str) => let '(gs, gs', names) :=
            "if render_preserved gs gs' names then 3 else 1")
 FN_FLAT = ("fun c : (glyphset * glyphset * bool) => let '(gs, gs', all) := c in "
            "bits (negb all || model_flatten_eqb gs gs') (render_preserved gs gs' (keys gs) && (negb all || flattened_ok gs'))")
-FN_TRANS = ("fun c : (affine * list str * list str * glyphset * glyphset) => let '(m, incl, skip, gs, gs') := c in "
-            "if transformed_ok m incl skip gs gs' then 3 else 1")
+FN_TRANS = ("fun c : (affine * list str * list str * glyphset * glyphset * bool) => let '(m, incl, skip, gs, gs', all) := c in "
+            "bits (negb all || model_transform_all_eqb m gs gs') (transformed_ok m incl skip gs gs')")
 
 
 def explore(ctx):
@@ -137,7 +137,7 @@ def explore(ctx):
                 if skipped:
                     ctx.klass("transform:included-above-excluded-composite(not guaranteed)", len(skipped))
             trans[0].append(G.tup(geom.g_affine(m), G.lst([G.s(n) for n in incl_eff], "str"),
-                                  G.lst([G.s(n) for n in skipped], "str"), g0, g1))
+                                  G.lst([G.s(n) for n in skipped], "str"), g0, g1, G.b(not kw)))
             trans[1].append(case)
         else:
             check_propagate(ctx, case, before, after, font, kw, lib, desc)
@@ -152,7 +152,7 @@ def explore(ctx):
             if not v & 2:
                 ctx.spec_failure(case, msg)
             elif not v & 1:
-                ctx.corr_mismatch(case, "Gallina flatten model differs from FlattenComponentsFilter")
+                ctx.corr_mismatch(case, "Gallina model (flatten_glyph / transform_set) differs from the filter's output")
         if meta:
             ctx.sample({"filter": meta[0]["filter"], "include_args": meta[0]["include_args"],
                         "glyphs": meta[0]["font"]["glyphs"][:2]})
